@@ -55,10 +55,12 @@ class HShape(fm.TimeComponent):
 
     def _connect(self, start_time):
         push = {}
+        self.sup = "none"
         if self.k["hasout"] and not self.connector.data_pushed["Out"] and self._cond():
             guess = (self.k.get("refine") and self.k["hasin"] and self.k["pull"]
                      and not self.connector.all_data_pulled)
             push = {"Out": float(1000 * self.idx + self.k["off"] + (500 if guess else 0))}
+            self.sup = "guess" if guess else "final"
         infos = {"Out": self._info(otag=True)} if self.k["hasout"] and self.k.get("oprov") else None
         self.try_connect(start_time, push_infos=infos, push_data=push)
 
@@ -84,7 +86,12 @@ class HShape(fm.TimeComponent):
             "outX": bool(k["hasout"] and con.out_infos["Out"] is not None),
             "outD": bool(k["hasout"] and con.data_pushed["Out"]),
             "pubs": [ticks(t) for t, _ in self.outputs["Out"].data] if k["hasout"] else [],
+            # what this call supplied as initial data, and the values that are published
+            "sup": getattr(self, "sup", "none"),
+            "pvals": [int(round(float(np.asarray(fm.data.get_magnitude(d)).flat[0])))
+                      for _, d in self.outputs["Out"].data] if k["hasout"] else [],
             "tok": tok})
+        self.sup = "none"
 
 
 def markers(info):
